@@ -15,6 +15,7 @@ import (
 	"io"
 	"math/rand"
 	"os"
+	"os/exec"
 	"runtime"
 	"sync"
 	"time"
@@ -201,13 +202,20 @@ func main() {
 					panic(err)
 				}
 			}
-			for i := 0; i < 3; i++ {
-				ref := plumbing.NewHashReference(plumbing.ReferenceName(fmt.Sprintf("refs/heads/b%d", i)), universe[i].h)
+			all0 := c.U("loose")
+			for _, p := range c.L("packs") {
+				all0 |= lib.Case{"p": p}.U("p")
+			}
+			for _, k := range unmask(all0) {
+				ref := plumbing.NewHashReference(plumbing.ReferenceName(fmt.Sprintf("refs/heads/b%d", k)), universe[k].h)
 				if err := st0.SetReference(ref); err != nil {
 					panic(err)
 				}
 			}
 			if err := st0.SetIndex(&index.Index{Version: 2}); err != nil {
+				panic(err)
+			}
+			if err := st0.SetReference(plumbing.NewSymbolicReference(plumbing.HEAD, "refs/heads/main")); err != nil {
 				panic(err)
 			}
 			st0.Close()
@@ -241,6 +249,7 @@ func main() {
 			}
 		}
 		var es errs
+		var muA, muB sync.Mutex // one writer at a time per instance: the property is about concurrent READS
 		results := make([]lib.Out, len(threads))
 		var wg sync.WaitGroup
 		start := make(chan struct{})
@@ -276,16 +285,36 @@ func main() {
 						es.add("reindex: %v", err)
 					}
 				case "notify":
-					if err := writePack(a.ObjectStorage, tc.U("p")); err != nil {
+					muA.Lock()
+					err := writePack(a.ObjectStorage, tc.U("p"))
+					muA.Unlock()
+					if err != nil {
 						es.add("pack writer on A: %v", err)
 					}
 				case "extpack":
-					if err := writePack(b.ObjectStorage, tc.U("p")); err != nil {
+					muB.Lock()
+					err := writePack(b.ObjectStorage, tc.U("p"))
+					muB.Unlock()
+					if err != nil {
 						es.add("pack writer on B: %v", err)
 					}
 				case "extloose":
-					if _, err := b.SetEncodedObject(memObj(int(tc.I("k")))); err != nil {
+					muB.Lock()
+					_, err := b.SetEncodedObject(memObj(int(tc.I("k"))))
+					muB.Unlock()
+					if err != nil {
 						es.add("loose writer on B: %v", err)
+					}
+				case "extrepack":
+					// another process repacks: everything into one new pack, the old packs are deleted
+					// (-k keeps unreachable objects: nothing stored disappears)
+					muB.Lock()
+					cmd := exec.Command("/usr/bin/git", "--git-dir", dir, "-c", "gc.auto=0", "-c", "pack.threads=1", "repack", "-a", "-d", "-k", "-q")
+					cmd.Env = append(os.Environ(), "GIT_CONFIG_NOSYSTEM=1", "HOME=/nonexistent", "GIT_CONFIG_GLOBAL=/dev/null")
+					out, err := cmd.CombinedOutput()
+					muB.Unlock()
+					if err != nil {
+						es.add("harness: git repack failed: %v %s", err, out)
 					}
 				}
 			}()
@@ -317,8 +346,12 @@ func main() {
 							es.add("background %s(%d): stored object not found", ops[(n+k+r)%3], k)
 						}
 					}
-					if ref, err := a.Reference("refs/heads/b1"); err != nil || ref.Hash() != universe[1].h {
-						es.add("background reference read: %v", err)
+					for _, k := range unmask(init) {
+						ref, err := a.Reference(plumbing.ReferenceName(fmt.Sprintf("refs/heads/b%d", k)))
+						if err != nil || ref.Hash() != universe[k].h {
+							es.add("background reference read b%d: %v", k, err)
+						}
+						break
 					}
 					if _, err := a.Index(); err != nil {
 						es.add("background index read: %v", err)
